@@ -136,6 +136,8 @@ pub struct RenderKnobs {
     /// SDL with `use_extend`: the object's LAST interface is declared by the extension block
     /// (`extend type X implements I { .. }`), and two or more extension fields go into separate blocks
     pub extend_implements: bool,
+    /// SDL with `use_extend`: the `extend type` blocks are written BEFORE the definitions they extend
+    pub extensions_first: bool,
     /// both formats: input-object fields of built-in scalar type carry a default value
     /// (`limit: Int! = 10` / `"defaultValue": "10"`); defaults never change the generated types
     pub input_defaults: bool,
@@ -159,6 +161,7 @@ impl Default for RenderKnobs {
             json_builtins: true,
             sdl_builtin_scalars: false,
             extend_implements: false,
+            extensions_first: false,
             input_defaults: false,
             json_wrapped: false,
             json_is_one_of: true,
@@ -337,6 +340,10 @@ impl ASchema {
                     out.push_str("}\n\n");
                 }
             }
+        }
+        if k.extensions_first {
+            // (after the optional `schema { }` block nothing depends on the order of definitions)
+            return format!("{}{}", exts, out);
         }
         out.push_str(&exts);
         out
@@ -567,7 +574,16 @@ pub fn random_schema(rng: &mut Rng, k: &SchemaKnobs) -> ASchema {
     for e in &enums {
         let n = rng.range(1, 5);
         let pool: Vec<&str> = if k.keywords_as_names { ENUM_VALUES.to_vec() } else { ENUM_VALUES[..9].to_vec() };
-        types.push(AType::Enum { name: e.clone(), values: pick_distinct(rng, &pool, n) });
+        // values whose identifiers coincide under `normalization = rust` (`self` / `Self`) make the generated
+        // enum declare one variant twice: that is C02's known finding `enum-values-equal-after-normalization`
+        // (witness in its corpus); the random schemas stay clear of it
+        let mut values = pick_distinct(rng, &pool, n);
+        let mut seen: Vec<String> = Vec::new();
+        values.retain(|v| {
+            let key: String = v.chars().filter(|c| *c != '_').flat_map(|c| c.to_lowercase()).collect();
+            if seen.contains(&key) { false } else { seen.push(key); true }
+        });
+        types.push(AType::Enum { name: e.clone(), values });
     }
     let mut gen_fields = |rng: &mut Rng, n_leaf: usize, n_link: usize, taken: &mut Vec<String>| -> Vec<AField> {
         let mut fs = Vec::new();
@@ -620,7 +636,19 @@ pub fn random_schema(rng: &mut Rng, k: &SchemaKnobs) -> ASchema {
                     implements.push(i.clone());
                     for f in ifs {
                         taken.push(f.name.clone());
-                        fields.push(f.clone());
+                        // an implementor may NARROW an inherited field (`name: String` -> `name: String!`, covariance)
+                        // and may deprecate it on its own, or with another reason than the interface
+                        let mut own = f.clone();
+                        if rng.chance(15) && !own.ty.is_non_null() {
+                            own.ty = ATy::NonNull(Box::new(own.ty));
+                        }
+                        if k.deprecations && rng.chance(10) {
+                            own.dep = match own.dep {
+                                None => Some(Some("deprecated on the object only".to_string())),
+                                Some(_) => if rng.chance(50) { None } else { Some(Some("the object's own reason".to_string())) },
+                            };
+                        }
+                        fields.push(own);
                     }
                 }
             }
